@@ -9,7 +9,7 @@
 import random
 
 from .. import tlc, tlaval
-from ..common import CPUS, chunks, pmap
+from ..batch import run_batches
 
 MC_CFG = """SPECIFICATION Spec
 CONSTANTS
@@ -203,18 +203,21 @@ def run(ctx):
         cases.append({"tree": tree, "scene": _random_scene(rng), "scale": rng.choice([1, 1000]), "sampled": True})
     for idx, case in enumerate(cases):
         case["id"] = idx
-    events = [ev for part in pmap(_observe_many, chunks(cases, CPUS * 4)) for ev in part]
-    by_id = {}
-    for case, event in zip(cases, events):
-        by_id[case["id"]] = {"op": "detect", "input": {"tree": case["tree"], "scene": case["scene"], "scale": case["scale"]},
-                             "call": _call_text(case), "observed": event["res"], "features": _features(case),
-                             "sampled": case["sampled"]}
+    samples = {}
+
+    def describe(case, event):
         if _nontrivial(case):
             ctx.nontrivial_case(case["id"])
+        entry = {"op": "detect", "input": {"tree": case["tree"], "scene": case["scene"], "scale": case["scale"]},
+                 "call": _call_text(case), "observed": event["res"], "features": _features(case), "sampled": case["sampled"]}
+        if case["id"] in (0, enumerated // 2, len(cases) - 1):
+            samples[case["id"]] = {"rule": entry["call"][:200], "scene": case["scene"], "observed": event["res"]}
+        return entry
+
     ctx.evaluations = len(cases)
-    ctx.validate("RuleAst_Trace", events, by_id, min_per_shard=200)
-    for case in (cases[0], cases[enumerated // 2], cases[-1]):
-        ctx.sample({"rule": _call_text(case)[:200], "scene": case["scene"], "observed": by_id[case["id"]]["observed"]})
+    run_batches(ctx, "RuleAst_Trace", cases, _observe_many, describe)
+    for ident in sorted(samples):
+        ctx.sample(samples[ident])
     ctx.exhaustive = False
     ctx.rule = (f"{len(trees)} TLC-enumerated condition trees (every leaf kind, negation at every node, cds bodies, and/or "
                 f"nesting up to 3 operands) x {len(layouts)} TLC-enumerated layouts (inside / exactly at / outside the cutoff, "
